@@ -517,14 +517,37 @@ def fresh_union(root, plats, excludes, phys_abs):
     return {rel: {ln: sorted(ps) for ln, ps in d.items()} for rel, d in union.items()}, ncmd
 
 
+def canonical_dirs(plan, order):
+    """the canonical counterpart of a list of directory spellings of the aliased variant: every spelling replaced by the
+    real directory it resolves to (`canon_of`; a directory that holds nothing but links has no counterpart), in the same
+    order (with exclude patterns a file is judged relative to the FIRST listed directory around it), a directory that
+    equals an earlier one or lies inside an earlier one left out (it is never the first one around any file)"""
+    cm = plan.get("canon_of")
+    if cm is None:
+        return list(plan["canonical"])
+    out = []
+    for d in order:
+        c = cm.get(d)
+        if c is None:
+            continue
+        if any(c == e or e == "." or c.startswith(e + "/") for e in out):
+            continue
+        out.append(c)
+    return out
+
+
 def multi_root_plan(rng, canon, alias, forced=None):
     """Directories for `CodeBase(d1, d2, ...)`: the top-level directories of the tree (files directly under the root are then
     outside the code base), in a random order; the aliased variant lists in addition the directories that hold nothing
-    but links and may spell a directory through a top-level directory link.  Returns None if there are fewer than two."""
+    but links and may spell a directory through a top-level directory link.  In more than half of the plans the listed
+    directories OVERLAP (F-C15-ROOTS = F-C09-NEST, repaired): a directory listed again (`d`, `./d`, `d/`), listed under its
+    name and through a symbolic link to it, listed together with one of its sub-directories (named directly or through
+    a link to it) before or after it, or together with the root of the tree itself.  Returns None if there is no
+    top-level directory, or only one and no overlap to add."""
     if forced:
         return forced
     tops = sorted({f.split("/")[0] for f in canon["texts"] if "/" in f and not f.startswith("vendored")})
-    if len(tops) < 2:
+    if not tops:
         return None
     lnames = {ln for ln, _ in alias["links"]}
     linkonly = sorted({ln.split("/")[0] for ln in lnames if "/" in ln} - set(tops) - lnames - {"vendored"})
@@ -534,7 +557,7 @@ def multi_root_plan(rng, canon, alias, forced=None):
     for ln, tg in alias["links"]:
         if "/" not in ln and os.path.normpath(tg) in tops:
             toplinks.setdefault(os.path.normpath(tg), []).append(ln)
-    spelled = []
+    spelled, canon_of = [], {}
     for d in order:
         r = rng.random()
         if d in toplinks and r < 0.3:
@@ -543,7 +566,51 @@ def multi_root_plan(rng, canon, alias, forced=None):
             spelled.append("./" + d)
         else:
             spelled.append(d)
-    return {"canonical": [d for d in order if d in tops], "aliased": spelled}
+        canon_of[spelled[-1]] = d if d in tops else None
+    # ---- overlapping directories
+    shapes = []
+    if rng.random() < (0.6 if len(tops) >= 2 else 1.0):
+        alldirs = sorted({"/".join(f.split("/")[:i]) for f in canon["texts"] for i in range(1, f.count("/") + 1)})
+        alldirs = [d for d in alldirs if d.split("/")[0] in tops]
+        subdirs = [d for d in alldirs if "/" in d]
+        dirlinks = {ln: os.path.normpath(tg) for ln, tg in alias["links"] if os.path.normpath(tg) in alldirs}
+        for _ in range(rng.randint(1, 2)):
+            kinds = ["relisted", "relisted"] + (["linked"] * 3 if dirlinks else []) + (["nested"] * 2 if subdirs else []) + ["whole"]
+            kind = rng.choice(kinds)
+            if kind == "relisted":
+                d = rng.choice(tops)
+                sp = rng.choice([d, "./" + d, d + "/"] + toplinks.get(d, []))
+                tgt = d
+            elif kind == "linked":
+                sp = rng.choice(sorted(dirlinks))
+                tgt = dirlinks[sp]
+            elif kind == "nested":
+                tgt = rng.choice(subdirs)
+                sp = rng.choice([tgt, "./" + tgt])
+            else:
+                sp, tgt = ".", "."
+            if kind == "nested" or (kind == "linked" and "/" in tgt):
+                kind += ":sub-directory"
+            while sp in canon_of and canon_of[sp] != tgt:
+                sp = "./" + sp
+            canon_of[sp] = tgt
+            spelled.insert(rng.randint(0, len(spelled)), sp)
+            shapes.append(kind)
+    # a directory NEXT to a listed one whose name continues its name (`src`, `src-old`): a code-base directory of its own
+    sibling = None
+    if rng.random() < 0.25:
+        d = rng.choice(tops)
+        sib = d + rng.choice(["-old", "2", "x"])
+        if not any(f == sib or f.startswith(sib + "/") for f in list(canon["texts"]) + sorted(lnames)):
+            sibling = sib
+            canon_of[sib] = sib
+            spelled.insert(rng.randint(0, len(spelled)), sib)
+            shapes.append("name-prefix-sibling")
+    if len(tops) < 2 and not shapes:
+        return None
+    plan = {"canonical": [], "aliased": spelled, "canon_of": canon_of, "overlap": shapes, "prefix_sibling": sibling}
+    plan["canonical"] = canonical_dirs(plan, spelled)
+    return plan
 
 
 LINK_ONLY_DIRS = ("0compat/",)
@@ -739,19 +806,52 @@ def check_case(ctx, drv, scr, idx, canon, alias, origin, want_cov=False, extras=
 
 
 def multi_root_check(ctx, drv, case, canon, alias, rootC, rootA, baseA, plats, plan):
+    try:
+        return _multi_root_check(ctx, drv, case, canon, alias, rootC, rootA, baseA, plats, plan)
+    finally:
+        # the extra directory of the `name-prefix-sibling` shape exists during this check only (the observations made
+        # before and after it are about the tree as generated)
+        if plan.get("prefix_sibling"):
+            for root in (rootC, rootA):
+                shutil.rmtree(os.path.join(root, plan["prefix_sibling"]), ignore_errors=True)
+
+
+def _multi_root_check(ctx, drv, case, canon, alias, rootC, rootA, baseA, plats, plan):
     """The code base is `CodeBase(root/d1, root/d2, ...)`.  Canonical variant (no links) once; aliased variant with the
     directories in the planned order and in the reverse order.  Expected: the same physical members, the same per-file
     attribution and setmap as the canonical variant (a link adds nothing, wherever its target lives and whichever
     directory is listed first), and absolutely: every physical member visited / counted exactly once."""
     res = {"plan": plan, "problems": []}
     exC, exA = canon.get("excludes", ()), alias.get("excludes", ())
+    extra_files = []
+    if plan.get("prefix_sibling"):
+        for root in (rootC, rootA):
+            os.makedirs(os.path.join(root, plan["prefix_sibling"]), exist_ok=True)
+            with open(os.path.join(root, plan["prefix_sibling"], "zz_extra.c"), "w") as f:
+                f.write("int extra_a;\nint extra_b;\n")
+        extra_files = [plan["prefix_sibling"] + "/zz_extra.c"]
     try:
-        oc = observe(rootC, plats, excludes=exC, dirs=plan["canonical"], light=True)
+        oc = observe(rootC, plats, excludes=exC, dirs=canonical_dirs(plan, plan["aliased"]), light=True)
     except Exception as e:  # noqa
         ctx.notes.append(f"multi-directory canonical variant not analysable ({type(e).__name__}: {e}) - dropped")
         return res
     ctx.count(key="multi_root_case")
     ctx.dist[f"multi_root:dirs={len(plan['aliased'])}"] += 1
+    # absolute expectation (no exclude patterns): the physical members are the files with a recognised extension below one of the
+    # listed directories - by path components, whatever else is listed
+    if not exC and plan.get("canon_of") is not None:
+        cdirs = canonical_dirs(plan, plan["aliased"])
+        want = sorted(f for f in list(canon["texts"]) + extra_files if fstree.suffix_of(os.path.basename(f)) in EXTS
+                      and any(c == "." or f.startswith(c + "/") for c in cdirs))
+        ctx.count(key="multi_root:members_by_definition")
+        if want != oc["phys"]:
+            ctx.violation(f"CodeBase of the directories {cdirs} (link-free variant): physical members {oc['phys']}, but the source files below "
+                          f"these directories are {want}", case)
+    for sh in plan.get("overlap") or ["none"]:
+        ctx.dist[f"multi_root:overlap={sh}"] += 1
+    # with exclude patterns a file is judged relative to the first listed directory around it: when directories are nested
+    # the reverse order is compared with the canonical variant in ITS reverse order and may legitimately differ from the listed order
+    order_matters = bool(plan.get("overlap")) and bool(exA)
     # does a member link sit in a directory listed BEFORE the directory of its target (in one of the two orders it does, if
     # the link crosses directories at all)?
     rdirs = [os.path.realpath(os.path.join(rootA, d)) for d in plan["aliased"]]
@@ -776,11 +876,22 @@ def multi_root_check(ctx, drv, case, canon, alias, rootC, rootA, baseA, plats, p
     bad = []
     prev = None
     for tag, order in (("listed order", list(plan["aliased"])), ("reverse order", list(reversed(plan["aliased"])))):
+        if tag == "reverse order" and order_matters:
+            try:
+                oc = observe(rootC, plats, excludes=exC, dirs=canonical_dirs(plan, order), light=True)
+            except Exception as e:  # noqa
+                ctx.notes.append(f"multi-directory canonical variant (reverse order) not analysable ({type(e).__name__}: {e}) - dropped")
+                continue
         try:
             oa = observe(rootA, plats, excludes=exA, dirs=order, light=True)
         except Exception as e:  # noqa
             bad.append(f"[{tag} {order}] aborts with {type(e).__name__}: {e} although the canonical variant is analysed")
             continue
+        # physical members that lie below two or more of the listed directories (equal or nested ones)
+        several = [p for p in oa["phys"] if sum(1 for r in rdirs if os.path.join(rootA, p).startswith(r.rstrip("/") + "/")) >= 2]
+        if several:
+            ctx.count(key="multi_root:member_below_several_listed_directories")
+            ctx.nontrivial.add(case["origin"] + "/multi-overlap")
         if oa["phys"] != oc["phys"]:
             bad.append(f"[{tag} {order}] physical member files {oa['phys']} vs canonical {oc['phys']}")
         vis = sorted(os.path.relpath(os.path.realpath(v), rootA) for v in oa["visited"])
@@ -797,7 +908,7 @@ def multi_root_check(ctx, drv, case, canon, alias, rootC, rootA, baseA, plats, p
             if oc["att"].get(rel) != oa["att"].get(rel):
                 bad.append(f"[{tag} {order}] attribution of {rel}: {str(oa['att'].get(rel))[:160]} vs canonical {str(oc['att'].get(rel))[:160]}")
                 break
-        if prev is not None and prev != oa["setmap"]:
+        if prev is not None and prev != oa["setmap"] and not order_matters:
             bad.append(f"the setmap depends on the order in which the directories are listed: {prev} vs {oa['setmap']}")
         prev = oa["setmap"]
         res[tag] = {"members": [os.path.relpath(m, rootA) for m in oa["members"]], "setmap": oa["setmap"], "visited": vis}
@@ -907,8 +1018,10 @@ def run(ctx, drv):
                 "Cross-directory file links (`0compat/x.c -> ../src/x.c`, a link-only directory that sorts before every real one; links under the "
                 "target's own base name in other directories).  Coverage export (CLI on the first cases, the exporter in process on every sixth): the "
                 "records of the aliased code base must be those of the canonical one BY NAME and by used / unused lines.  Absolute expectations: "
-                "(1) every case: setmap total = counted lines of the physical members, each once; (2) every fifth case with >= 2 top-level "
-                "directories: CodeBase(d1, d2, ...) in a random order and in the reverse order (directories spelled through top-level links or `./`), "
+                "(1) every case: setmap total = counted lines of the physical members, each once; (2) every fifth case with a top-level "
+                "directory: CodeBase(d1, d2, ...) in a random order and in the reverse order (directories spelled through top-level links or `./`; "
+                "in most plans OVERLAPPING: a directory listed again, listed under its name and through a symbolic link to it, together with a "
+                "sub-directory - named or linked - before or after it, together with the root of the tree), "
                 "each physical member counted exactly once, same setmap / attribution as the link-free variant, independent of the order; "
                 "(3) union oracle (every twelfth case and every mixed-language case): per-line attribution of the full run = union over all compile "
                 "commands of that command analysed alone in a fresh state.  Mixed-language stream: Fortran free-form and C / C++ units include the "
@@ -918,8 +1031,10 @@ def run(ctx, drv):
         "of their target or through directory links, so that the directory an #include is resolved against is the same for every alias (which "
         "directory a preprocessor uses for a file reached through a link is C04's question); links in OTHER directories exist for every kind "
         "of file and are enumerated, and files without such lines are also referred to through them",
-        "the directories of a multi-directory code base are pairwise disjoint (no directory listed twice or inside another one: the unchanged "
-        "code walks the overlap twice - Lean counted_once carries the same hypothesis; reported with a proposed repair, patches/F-C15-ROOTS_overlapping_directories.diff)",
+        "multi-directory code bases: with exclude patterns a file is judged relative to the FIRST listed directory around it, so with nested "
+        "directories and exclude patterns the two orders are each compared with the canonical variant in the same order, not with one another "
+        "(the listed directories themselves may be equal, linked or nested: F-C15-ROOTS = F-C09-NEST is repaired and `counted_once` has no "
+        "hypothesis on the list any more)",
         "the shared headers of the mixed-language stream hold text that reads the same under the C and the Fortran line source (no comments, quotes, continuations)",
         "`x/../` segments go through real directories only (the lexical reading of `..` behind a directory link is C13's question)",
         "file systems contain regular files, directories and symbolic links only",
